@@ -1044,7 +1044,8 @@ class StubsStringGenerator:
         return False
 
     def _is_path_connected_to_class(self, path: str, class_path: str) -> bool:
-        if class_path.endswith(path):
+        # The path has to match whole parts of the class path, "xa/Base" is not connected to "a/Base"
+        if class_path == path or class_path.endswith(f"/{path}"):
             return True
 
         name = path.split("/")[-1]
@@ -1162,7 +1163,8 @@ class StubsStringGenerator:
 
         # If we found nothing, we try to search it through all classes
         for class_ in self.api.classes:
-            if class_.endswith(class_qname) or (
+            # The qname has to match whole parts of the class id, "pkg/xa/_Base" is not the class "a/_Base"
+            if class_.endswith(f"/{class_qname}") or (
                 class_.startswith(f"{class_path}/") and class_.endswith(f"/{class_name}")
             ):
                 return self.api.classes[class_]
